@@ -619,9 +619,15 @@ class _ChunkWorld(World):
     if base == S('uniq') and isinstance(idx, int) and \
             -len(self.layout) <= idx < len(self.layout):
       return S('label', idx % len(self.layout))
+    if base == S('pl') and idx == S('kmask'):
+      return S('klabels')
     return NotImplemented
 
   def compare(self, it, op, a, b, node):
+    for x, y in ((a, b), (b, a)):
+      if x == S('pl') and tg(y) == 'labv' and \
+              isinstance(op, (ast.Eq, ast.NotEq)):
+        return S('cmask', y[1], isinstance(op, ast.Eq))
     if a == S('uniq') and b == 0 and isinstance(op, (ast.Lt, ast.GtE)):
       neg = Arr((int(not k) for _, k in self.layout), mask=True)
       return neg if isinstance(op, ast.Lt) else Arr((1 - x for x in neg.xs),
@@ -751,6 +757,10 @@ class _ChunkWorld(World):
                 and len(args) == 1:
           return (S('uniq'), S('lookup'))
         raise Undecided('np.unique options')
+      if short == 'unique' and args == [S('klabels')] and not kwargs:
+        # the distinct known label values, in increasing order
+        return [S('labv', i) for i, (_c, k_) in enumerate(self.layout)
+                if k_]
       if short in ('asanyarray', 'asarray', 'array') and args and \
               args[0] in (S('pl-arg'), S('pl')):
         return S('pl')
